@@ -42,9 +42,10 @@ func c14Jobs(cases []*lab.Case, lo, n, perJob int, mixed bool, rot int) []proto.
 			steps = append(steps, proto.Step{Entry: (j + k) % len(cs.G.Rules), Input: in})
 		}
 		m := proto.Mode{}
-		switch j % 5 {
-		case 1:
-			m.Size = 1
+		// several goroutines are set up from the same option values (shared by the runner)
+		switch j % 6 {
+		case 0, 1, 4:
+			m.Size = 65 // Size(64): the parse stays within the initial capacity
 		case 2:
 			m.NoMemo = true
 		case 3:
@@ -236,7 +237,7 @@ func init() {
 		return "", nil
 	})
 	drv.Register("C14",
-		"12 (quick) / 60 (thorough) well-formed grammars, default and -inline -switch parsers built into one binary with the race detector; job sets of 8 goroutines over one parser and of 16 goroutines over two different parsers, each goroutine owning one instance (Init with mixed options: Size(0), DisableMemoize, Pretty) and running 3-4 Reset/Parse/Execute/Sprint/Error steps behind a common barrier, repeated under GOMAXPROCS 2, 4 and 16; every observation must equal the same parse run alone in the same binary, the race detector must stay silent and the worker must survive. Every job set is non-trivial (>=8 concurrent instances); distinct = (job set, GOMAXPROCS).",
+		"12 (quick) / 60 (thorough) well-formed grammars, default and -inline -switch parsers built into one binary with the race detector; job sets of 8 goroutines over one parser and of 16 goroutines over two different parsers, each goroutine owning one instance (Init with option values shared between goroutines: Size(64), DisableMemoize, Pretty, none) and running 3-4 Reset/Parse/Execute/Sprint/Error steps behind a common barrier, repeated under GOMAXPROCS 2, 4 and 16; every observation must equal the same parse run alone in the same binary, the race detector must stay silent and the worker must survive. Every job set is non-trivial (>=8 concurrent instances); distinct = (job set, GOMAXPROCS).",
 		[]string{
 			"schedules are sampled by the Go scheduler, not enumerated; the race detector is happens-before based, so an unsynchronised conflicting pair is flagged whenever both accesses execute",
 			"PrintSyntaxTree (global os.Stdout) is left out of concurrent jobs",
